@@ -180,7 +180,7 @@ def run_case(case):
             for a in res.atoms:
                 resof[(a.x, a.y, a.z)] = ri
         inter = [k for k, (i, j) in enumerate(natural) if resof.get(tuple(data[i])) != resof.get(tuple(data[j]))]
-        for perm in fam.schedules(natural, inter, 1 if _tier[0] == "quick" else 2):
+        for perm in fam.schedules(natural, inter, 2 if (_tier[0] != "quick" and len(inter) <= 12) else 1):
             order = fam.apply_schedule(natural, inter, perm)
             seams.PAIR_ORDER.fn = lambda nat, d, order=order: order
             r2 = observe(find_pairs, s)
